@@ -150,9 +150,18 @@ func (r *vRotIdP) handler(email string) func(url.Values) (int, string, string, e
 		if r.omitID != nil && r.omitID(r.cur) {
 			id = ""
 		}
-		return 200, "application/json", vTokenJSON(id, fmt.Sprintf("at%d", r.cur), fmt.Sprintf("rt%d", r.cur), 3600), nil
+		// every other successful refresh response (counted over the whole run) leaves out expires_in, which RFC 6749
+		// only recommends: the refreshed session then has no token expiry at all
+		vRotSeq++
+		expiresIn := 3600
+		if vRotSeq%2 == 0 {
+			expiresIn = 0 // omitted by vTokenJSON
+		}
+		return 200, "application/json", vTokenJSON(id, fmt.Sprintf("at%d", r.cur), fmt.Sprintf("rt%d", r.cur), expiresIn), nil
 	}
 }
+
+var vRotSeq int
 
 type vSchedOutcome struct {
 	trace    []vStep
